@@ -347,6 +347,10 @@ class _Mat:
             return PyFunc(lambda a, k, n: ("copy", self))
         if name == "shape":
             return (Poly.sym("N"), Poly.sym("N"))
+        if name == "format" and self.kind == "sparse":
+            return "csr"          # an indexable format: no conversion
+        if name in ("tocsr", "tocsc") and self.kind == "sparse":
+            return PyFunc(lambda a, k, n: self)   # same matrix
         raise Unsupported(f"matrix attribute {name}")
 
     def sig(self):
@@ -593,6 +597,8 @@ def _penalize_run(model, rep, fn):
                 def sd(a, k, n):
                     self.diag = a[0]
                 return PyFunc(sd)
+            if nm == "format":
+                return "csr"      # a format with setdiag / indexing
             raise Unsupported(f"{self.name}.{nm}")
 
     class Ix:
@@ -1158,6 +1164,43 @@ def _storage_format(model, rep):
                          f"it came in: dia_matrix has no .max(), so the "
                          f"call raises AttributeError for a format the "
                          f"helper otherwise supports", x.lineno)
+    # indexing: A[I] exists for CSR, CSC, LIL and DOK only - COO, DIA and BSR
+    # (what sp.block_diag, sp.eye / sp.diags and sp.kron return) raise.  A
+    # helper that indexes the system matrix needs a conversion or a test of
+    # its format first.
+    for name in dict.fromkeys(BC_FUNCS):
+        try:
+            fn = model.func(U, name)
+        except AnalysisError:
+            continue
+        if "A" not in fn.params():
+            continue
+        subs = [x for x in walk_no_nested(fn.node) if isinstance(
+            x, ast.Subscript) and isinstance(x.value, ast.Name)
+            and x.value.id == "A" and isinstance(x.ctx, ast.Load)]
+        if not subs:
+            continue
+        first = min(x.lineno for x in subs)
+        established = any(
+            (isinstance(y, ast.Attribute) and y.attr == "format"
+             and src(y.value) == "A")
+            or (isinstance(y, ast.Call) and isinstance(y.func, ast.Attribute)
+                and y.func.attr in ("tocsr", "tocsc", "tolil")
+                and src(y.func.value) == "A")
+            for y in walk_no_nested(fn.node)
+            if getattr(y, "lineno", 10 ** 9) < first)
+        nflag += 1
+        cons = f"{name}:A[...]:indexable-format"
+        if established:
+            rep.ok(R3, cons, "the matrix is converted to (or tested for) an "
+                   "indexable format before it is indexed")
+        else:
+            rep.fail(R3, F, name, cons,
+                     f"'{src(subs[0])[:30]}' indexes the system matrix in "
+                     f"the format it came in: COO, DIA and BSR matrices "
+                     f"(sp.block_diag, sp.eye, sp.diags, sp.kron) are not "
+                     f"subscriptable and {name} raises TypeError where the "
+                     f"sibling enforce accepts them", subs[0].lineno)
     if nflag < 3:
         raise AnalysisError(f"only {nflag} reads of the canonical-format "
                             f"flag found in utils.py, 4 confirmed by hand")
@@ -1441,6 +1484,10 @@ def run(model: Model, rep, tier: str) -> None:
 
 _U = "skfem/utils.py"
 MUTANTS = [
+    ("condense indexes the matrix in the format given",
+     (_U, "    # COO, DIA and BSR matrices cannot be indexed\n    if A.format "
+      "in ('coo', 'dia', 'bsr'):\n        A = A.tocsr()\n    if isinstance("
+      "b, spmatrix)", "    if isinstance(b, spmatrix)"), "C05-R3"),
     ("penalize takes the fallback scale in the format given",
      (_U, "            scale = abs(Aout.tocsr()).max() if Aout.nnz > 0 else "
       "0.", "            scale = abs(Aout).max() if Aout.nnz > 0 else 0."),
@@ -1568,7 +1615,10 @@ TWINS = [
      (_U, "    bout[D] = x[D] / epsilon", "    bout[D] = x[D] * (1. / "
       "epsilon)")),
     ("enforce: non-CSR input converted with the constructor",
-     (_U, "        Aout = A.tocsr()\n", "        Aout = sp.csr_matrix(A)\n")),
+     (_U, "            raise ValueError(\"overwrite=True requires a CSR "
+      "matrix.\")\n        Aout = A.tocsr()\n",
+      "            raise ValueError(\"overwrite=True requires a CSR "
+      "matrix.\")\n        Aout = sp.csr_matrix(A)\n")),
     ("penalize: default scale from the largest absolute diagonal",
      (_U, "        scale = np.linalg.norm(d[D], np.inf) if len(D) > 0 else "
       "0.", "        scale = float(np.abs(d[D]).max()) if len(D) > 0 else "
